@@ -134,6 +134,18 @@ func (c *Change) CheckPairing() error {
 	type dp struct {
 		line, col int
 		id        string
+		class     string // type of the list the elision stands in
+	}
+	classOf := func(ctx string) string {
+		switch ctx {
+		case "args", "elts", "rets", "kv":
+			return "exprs"
+		case "stmts":
+			return "stmts"
+		case "for":
+			return "for"
+		}
+		return "fields"
 	}
 	var minus, plus []dp
 	for i, l := range c.Lines {
@@ -142,7 +154,7 @@ func (c *Change) CheckPairing() error {
 			id := t[loc[2]:loc[3]]
 			// column in the rendered patch text
 			col := len(patchRender(t[:loc[0]]))
-			d := dp{i, col, id}
+			d := dp{i, col, id, classOf(t[loc[4]:loc[5]])}
 			if l.Prefix == ' ' || l.Prefix == 0 || l.Prefix == '-' {
 				minus = append(minus, d)
 			}
@@ -164,6 +176,8 @@ func (c *Change) CheckPairing() error {
 		return nil
 	}
 	for _, p := range plus {
+		// the nearest '-' elision in front of it; if that one stands in a list of another type (or there is none),
+		// the nearest one in a list of the same type in front of it, else the first such one behind it
 		best := -1
 		for i, m := range minus {
 			if m.line < p.line || (m.line == p.line && m.col <= p.col) {
@@ -172,7 +186,34 @@ func (c *Change) CheckPairing() error {
 				}
 			}
 		}
-		if best < 0 || minus[best].id != p.id {
+		if best >= 0 && minus[best].class == p.class {
+			if minus[best].id != p.id {
+				return fmt.Errorf("elision %s on the plus side is not positionally paired with its minus elision", p.id)
+			}
+			continue
+		}
+		if c.Kind == "stmts" && p.class == "stmts" {
+			// the implied leading / trailing elisions of a statement pattern compete here: not modelled
+			return fmt.Errorf("elision %s on the plus side is not positionally paired with its minus elision", p.id)
+		}
+		prev, next := -1, -1
+		for i, m := range minus {
+			if m.class != p.class {
+				continue
+			}
+			if m.line < p.line || (m.line == p.line && m.col <= p.col) {
+				if prev < 0 || m.line > minus[prev].line || (m.line == minus[prev].line && m.col > minus[prev].col) {
+					prev = i
+				}
+			} else if next < 0 || m.line < minus[next].line || (m.line == minus[next].line && m.col < minus[next].col) {
+				next = i
+			}
+		}
+		pick := prev
+		if pick < 0 {
+			pick = next
+		}
+		if pick < 0 || minus[pick].id != p.id {
 			return fmt.Errorf("elision %s on the plus side is not positionally paired with its minus elision", p.id)
 		}
 	}
